@@ -59,6 +59,9 @@ def setConsts (s : St V) (p : List V) : St V := { s with consts := p, needsOpt :
 /-- `fitness = v` (the setter marks the individual evaluated) -/
 def setFitness (s : St V) (v : Key) : St V := { s with fit := some v, fitSet := true }
 
+/-- `fit_set = False` (what `Island.reset_fitness` does): the stored value stays, the flag is cleared -/
+def resetFlag (s : St V) : St V := { s with fitSet := false }
+
 /-- `copy()` / `__deepcopy__`: every field -/
 def copy (s : St V) : St V := s
 
@@ -81,6 +84,7 @@ inductive Op (V : Type) where
   | setConsts (p : List V)
   | observe
   | setFitness (v : Key)
+  | resetFlag
   deriving Repr
 
 def step (derive : Bool → Stack → Stack) (one : V) (s : St V) : Op V → St V
@@ -89,6 +93,7 @@ def step (derive : Bool → Stack → Stack) (one : V) (s : St V) : Op V → St 
   | .setConsts p => setConsts s p
   | .observe => (observe derive one s).1
   | .setFitness v => setFitness s v
+  | .resetFlag => resetFlag s
 
 def run (derive : Bool → Stack → Stack) (one : V) (s : St V) (ops : List (Op V)) : St V :=
   ops.foldl (step derive one) s
